@@ -122,6 +122,24 @@ def grammar_records(args):
     return recs
 
 
+def cycling_records(args):
+    """(cases with <= 2 fields, seed): for every field position, EVERY variant of that position's
+    shape once (the other positions random), so that no single concrete spelling is left to luck"""
+    cases, seed = args
+    rng = random.Random(seed)
+    recs = []
+    mf = None
+    for tag, shapes in cases:
+        for pos in range(len(shapes)):
+            for v in SHAPES[shapes[pos]]:
+                t = tag if tag != 'UNKNOWN' else rng.choice(UNKNOWN_TAGS)
+                fields = [rng.choice(SHAPES[s]) for s in shapes]
+                fields[pos] = v
+                r, mf = text_record(' '.join([t] + fields) + '\n', mf)
+                recs.append(r)
+    return recs
+
+
 def all_cases(maxfields):
     tags = list(KNOWN) + ['UNKNOWN']
     for t in tags:
